@@ -1,0 +1,24 @@
+//go:build verif
+
+package decoder
+
+import "io"
+
+// VerifReadBuffer exposes the decoder's internal read buffer to the verification harness (build tag "verif" only).
+type VerifReadBuffer struct{ b readBuffer }
+
+// NewVerifReadBuffer creates a read buffer of the given size (clamped as the decoder does) over r.
+func NewVerifReadBuffer(r io.Reader, size int) *VerifReadBuffer {
+	v := &VerifReadBuffer{}
+	v.b.Reset(r, size)
+	return v
+}
+
+// ReadN is readBuffer.ReadN.
+func (v *VerifReadBuffer) ReadN(n int) ([]byte, error) { return v.b.ReadN(n) }
+
+// State reports cur, last and the length of the underlying array.
+func (v *VerifReadBuffer) State() (cur, last, size int) { return v.b.cur, v.b.last, len(v.b.buf) }
+
+// VerifReservedBuf is the size of the reserved section of the read buffer.
+const VerifReservedBuf = reservedbuf
